@@ -12,6 +12,8 @@ import zlib
 import common
 import project_html as ph
 
+VOIDS = ('br', 'input')      # printed without a slash under the html self-closing style
+
 ROWS = [
     dict(name='html-2sp', syntax='html', nl='\n', base='', indent='  ', clause=True,
          opts={'output.formatSkip': [], 'output.inlineBreak': 3}),
@@ -54,7 +56,7 @@ def _events(out, row):
         for e in ph.lex(rest):
             if e[0] == 'open':
                 trig = any(a[0] in ('id', 'class', 'className') and a[2] for a in e[2])
-                if e[3] or e[1] == 'br':
+                if e[3] or e[1] in VOIDS:
                     ev.append({'ev': 'selfclose', 'name': e[1], 'trig': trig, 'baseok': True, 'units': 0, 'blank': False})
                 else:
                     stack.append(trig)
@@ -72,7 +74,13 @@ def _events(out, row):
 def _content(out, row):
     lines = out.split(row['nl'])
     lines = lines[:1] + [l[len(row['base']):] if l.startswith(row['base']) else l for l in lines[1:]]    # baseIndent is white space of the host document
-    lst = [n for n in ph.tree(ph.lex('\n'.join(lines)), ('br',)) if n['n'] != '#text']
+    full = ph.tree(ph.lex('\n'.join(lines)), VOIDS)
+    # text printed between / after the children of an element belongs to that element's text
+    for i, n in enumerate(full):
+        if n['n'] == '#text' and n['d'] > 0:
+            par = next(m for m in reversed(full[:i]) if m['n'] != '#text' and m['d'] == n['d'] - 1)
+            par['t'] += '\n' + n['t']
+    lst = [n for n in full if n['n'] != '#text']
     res = []
     for i, n in enumerate(lst):
         attrs = {a[0]: a[2] for a in n['a']}
@@ -80,7 +88,7 @@ def _content(out, row):
         has_kids = i + 1 < len(lst) and lst[i + 1]['d'] > n['d']
         res.append({'d': n['d'], 'n': n['n'], 'id': attrs.get('id', ''), 'cls': cls.split(),
                     'attrs': [[a[0], a[2]] for a in n['a'] if a[0] not in ('id', 'class', 'className')], 'text': [l.strip() for l in n['t'].strip().splitlines()] if n['t'].strip() else [],
-                    'sc': bool(n['sc'] or (n['n'] == 'br' and not has_kids))})
+                    'sc': bool(n['sc'] or (n['n'] in VOIDS and not has_kids))})
     return res
 
 
@@ -98,8 +106,11 @@ def _chunk(items):
                 if row['syntax'] == 'xsl' and e['n'] in ('xsl:variable', 'xsl:with-param') and \
                         ((i + 1 < len(cont) and cont[i + 1]['d'] > e['d']) or e['text']):
                     attrs = [a for a in attrs if a[0] != 'select']       # documented xsl addon: select is dropped when there is content
+                if row['syntax'] == 'jsx':
+                    attrs = [['htmlFor' if a[0] == 'for' else a[0], a[1]] for a in attrs]       # markup.attributes mapping of the jsx syntax
                 exp.append({'d': e['d'], 'n': e['n'], 'id': e['id'], 'cls': list(e['cls']), 'attrs': attrs, 'text': list(e['text']), 'sc': bool(e['sc'])})
-            flags = {'multiline_text_with_children': bool(v['mlkids']), 'leaf_inner_break': bool(row.get('leaf') or v['mltext'])}
+            flags = {'multiline_text_with_children': bool(v['mlkids']), 'leaf_inner_break': bool(row.get('leaf') or v['mltext']),
+                     'field_text_with_children': bool(v['fieldkids'])}
             case = {'abbr': v['abbr'], 'row': row['name'], 'flags': flags}
             try:
                 with common.Alarm(10):
@@ -129,9 +140,9 @@ def run(out):
                        'known findings: F19 (multi-line text + children), F27 (leaf with forced inner break whose open tag is inside a line)',
                        'tag lexer trusted']
     base = dict(Names=set(), Implicits=set(), Voids=set(), Reps={2}, MaxGroups=1, MaxReps=1)
-    insts = [('forms-exhaustive', dict(constants=dict(base, MaxTok=3 if quick else 5, FormIdx=set(range(1, 18))))),
+    insts = [('forms-exhaustive', dict(constants=dict(base, MaxTok=3 if quick else 5, FormIdx=set(range(1, 21))))),
              ('forms-deep', dict(constants=dict(base, MaxTok=6 if quick else 8, MaxGroups=0, FormIdx={1, 5, 9, 12, 16} if quick else {1, 5, 9, 10, 12, 16}))),
-             ('forms-simulated', dict(constants=dict(base, MaxTok=18 if quick else 30, MaxGroups=2, MaxReps=2, FormIdx=set(range(1, 18))),
+             ('forms-simulated', dict(constants=dict(base, MaxTok=18 if quick else 30, MaxGroups=2, MaxReps=2, FormIdx=set(range(1, 21))),
                                       simulate=3 if quick else 60, depth=22 if quick else 36, seed=out.seed))]
     tid0 = 0
     for name, kw in insts:
@@ -167,7 +178,7 @@ def run(out):
             else:
                 traces += payload
         slim = [{'tid': t['tid'], 'indent_clause': t['indent_clause'], 'events': t['events']} for t in traces]
-        verdicts, r2 = common.validate_traces('Trace_Format', slim, heap='12g')
+        verdicts, r2 = common.validate_traces('Trace_Format', slim, heap='5g', batch_events=40000, parallel=4)
         out.add_tlc(name, r, vectors=len(vecs))
         out.add_tlc(name + '-trace-validation', r2, traces=len(traces), events=sum(len(t['events']) for t in traces))
         out.traces += len(traces)
